@@ -226,10 +226,19 @@ def chk_c08(rec, be):
     modes = [m] + (["auto"] if m == 0 else [])
     for mode in modes:
         _c08_mode(R, rec, a, b, ts, te, s1, s2, mode, ri, mt)
+    if m == 0 and mt == 0 and not ri and a and b:
+        # the same relations on a dilated copy of the pair (times x3, second train moved by +1): sparse trains
+        # with long intervals, where an explicit max_tau of 1 or 2 - not the neighbouring spikes - limits the window
+        a3 = [3 * x for x in a]
+        b3 = sorted(set(min(3 * x + 1, 3 * te) for x in b))
+        r3 = dict(rec, _shifts=(2,), _scales=())
+        for mt3 in (1.0, 2.0):
+            _c08_mode(R, r3, a3, b3, 3 * ts, 3 * te, train(a3, 3 * ts, 3 * te), train(b3, 3 * ts, 3 * te), 0.0, False, mt3,
+                      pre="dilated pair a=%s b=%s [%s,%s] max_tau=%g: " % (a3, b3, 3 * ts, 3 * te, mt3))
     return R.result()
 
 
-def _c08_mode(R, rec, a, b, ts, te, s1, s2, m, ri, mt):
+def _c08_mode(R, rec, a, b, ts, te, s1, s2, m, ri, mt, pre=""):
     base = {}
     for name, f in list(PROFILES.items()) + list(SCALARS.items()) + list(ORDER_SCALARS.items()):
         base[name] = R.run(name, f, s1, s2, m, ri, mt)
@@ -243,7 +252,7 @@ def _c08_mode(R, rec, a, b, ts, te, s1, s2, m, ri, mt):
         m2, mt2 = (m if m == "auto" else m * f), mt * f
         t1 = pyspike.SpikeTrain(np.array(a2, dtype=float), [ts2, te2])
         t2 = pyspike.SpikeTrain(np.array(b2, dtype=float), [ts2, te2])
-        tag = "%s(%s)%s" % (kind, par, " MRTS='auto'" if m == "auto" else "")
+        tag = "%s%s(%s)%s" % (pre, kind, par, " MRTS='auto'" if m == "auto" else "")
         for name, fn in PROFILES.items():
             if base[name] is None:
                 continue
@@ -424,7 +433,8 @@ def _marks(rec, s1, s2, m, mt, R):
 def chk_c16(rec, be):
     R = Runner(rec, be)
     a, b, ts, te = rec["a"], rec["b"], rec["ts"], rec["te"]
-    for sg in (1.0, 2.0 ** 10):
+    # the third unit is tiny: a max_tau of 1e-12 is a bound like any other, not "no bound"
+    for sg in (1.0, 2.0 ** 10, 2.0 ** -40):
         m, ri, mt = _kw(rec, sg)
         s1, s2 = train(a, ts, te, sg), train(b, ts, te, sg)
         if mt == 0:
@@ -591,7 +601,8 @@ def chk_twin_sync(rec, be):
     a, b, ts, te = rec["a"], rec["b"], rec["ts"], rec["te"]
     m = float(fr(rec["mrts"]))
     mt = float(fr(rec["mtau"]))
-    for sg in (1.0, 2.0 ** 10):
+    # the third unit (0.1) is not exact in floats: ties are decided by rounding, and both twins must round alike
+    for sg in (1.0, 2.0 ** 10, 0.1):
         A, B = arr(a, sg), arr(b, sg)
         args = (A, B, ts * sg, te * sg, mt * sg, m * sg)
         r1, _ = _twin(R, "coincidence_profile s=%g" % sg, PB.coincidence_python, shim("cython_profiles", "coincidence_profile_cython"), args, sg)
